@@ -10,7 +10,7 @@ MCSeeds == {
 }
 MCIds == 1..2
 MCOps == {"New", "NewRefused", "AddRefused", "IAddRefused", "ISubRefused", "ForeignRefused", "NegRefused", "DivZeroRefused",
-          "SetDtypeRefused", "IAdd", "IMul", "Fill", "Merge", "ISub"}
+          "SetDtypeRefused", "IAdd", "IMul", "IDiv", "Normalize", "Fill", "Merge", "ISub"}
 MCSliceArgs == {<<1, NoneIx>>}
 MCTakeArgs == {<<0>>}
 MCScalars == {<<2, 1, "pyint">>, <<1, 2, "pyfloat">>}
